@@ -1278,6 +1278,41 @@ directive @many repeatable on FIELD
         assert!(matches!(one("query($v: Int) { f(s: [$v], e: A) }"), Verdict::Unspecified(_)));
     }
 
+    /// Judgements that depend on where a shared definition is used: every spread site, every
+    /// operation, and the directive definition in force (a schema may re-define a built-in one).
+    #[test]
+    fn context_dependent() {
+        // the same fragment at two sites: possible at the first, impossible at the second
+        ok("{ dog { ...d } pet { ...d } } fragment d on Dog { name }");
+        bad("{ dog { ...d } human { ...d } } fragment d on Dog { name }", &["E.spreadImpossible"]);
+        bad("{ human { ...d } dog { ...d } } fragment d on Dog { name }", &["E.spreadImpossible"]);
+        bad("{ pet { ...p } human { ...h } } fragment p on Pet { name ...d } fragment h on Human { name ...d } fragment d on Dog { nickname }", &["E.spreadImpossible"]);
+        // a fragment's variables are checked against EACH operation that reaches it
+        ok("query A($x: Boolean) { ...F } query B($x: Boolean!) { dog { name } ...F } fragment F on Query { dog { isHouseTrained(atOtherHomes: $x) } }");
+        bad("query A($x: Boolean) { ...F } query B { dog { name } ...F } fragment F on Query { dog { isHouseTrained(atOtherHomes: $x) } }", &["E.varDefined"]);
+        bad("query B { dog { name } ...F } query A($x: Boolean) { ...F } fragment F on Query { dog { isHouseTrained(atOtherHomes: $x) } }", &["E.varDefined"]);
+        bad("query A($x: Boolean) { ...F } query B($x: Int) { ...F } fragment F on Query { dog { isHouseTrained(atOtherHomes: $x) } }", &["E.varPosition.top"]);
+        bad(
+            "query A($x: Boolean!) { ...O } query B($x: Boolean) { dog { ...I } } fragment O on Query { dog { ...I } } fragment I on Dog { name @skip(if: $x) }",
+            &["E.varPosition.top"],
+        );
+        // used by another operation only
+        bad("query A($x: Boolean) { ...F } query B($x: Boolean) { dog { name } } fragment F on Query { dog { isHouseTrained(atOtherHomes: $x) } }", &["E.varUnused"]);
+        // a conflict beside ONE of two spreads of the same fragment
+        ok("{ dog { ...n } pet { ...n } } fragment n on Pet { name }");
+        bad("{ dog { ...n } pet { ...n ... on Dog { name: nickname } } } fragment n on Pet { name }", &["E.merge.name", "E.merge.shape.nonnull"]);
+        // re-defined built-in directives: the schema's own definition is the one in force
+        let redefined = "directive @skip(if: Boolean!) repeatable on FIELD | FRAGMENT_SPREAD | INLINE_FRAGMENT | QUERY\n\
+                         directive @include(if: Boolean!) on FIELD\n\
+                         directive @deprecated(reason: String = \"No longer supported\") repeatable on FIELD_DEFINITION | ARGUMENT_DEFINITION | INPUT_FIELD_DEFINITION | ENUM_VALUE | FIELD\n\
+                         type Query { a: Int @deprecated b: Int }";
+        assert_eq!(run(redefined, "query @skip(if: false) { a @skip(if: true) @skip(if: false) }"), Verdict::Valid);
+        assert_eq!(run(redefined, "{ a @deprecated @deprecated(reason: \"x\") }"), Verdict::Valid);
+        assert_eq!(run(redefined, "{ a @include(if: true) @include(if: true) }").codes(), ["E.dirUnique"]);
+        assert_eq!(run(redefined, "{ ... @include(if: true) { a } }").codes(), ["E.dirLocation"]);
+        assert_eq!(run("type Query { a: Int }", "query @skip(if: false) { a @skip(if: true) @skip(if: false) }").codes(), ["E.dirLocation", "E.dirUnique"]);
+    }
+
     #[test]
     fn directives() {
         bad("{ dog { name @nope } }", &["E.dirKnown"]);
